@@ -112,6 +112,7 @@ func TestVerifCoupling(t *testing.T) {
 		}
 		n := ls.nchan
 		vEmit(vmap{"ev": "GBegin", "scen": 100000 + scen, "nchan": n})
+		step := 0
 		for k := 4 + rng.Intn(8); k > 0; k-- {
 			op := []string{"fb2err", "fb2err", "err2fb", "none", "add", "del", "restart", "fb2err"}[rng.Intn(8)]
 			pairs := [][]int{}
@@ -131,12 +132,31 @@ func TestVerifCoupling(t *testing.T) {
 				err = ls.ChangeGroupTrigger(op == "add", &GroupTriggerState{Connections: map[int][]int{s: {r}}})
 			}
 			gs := ls.ComputeGroupTriggerState()
-			actual := grPairs(&gs)
+			reported := grPairs(&gs)
+			// the set in use: one processing cycle in which every channel has one primary at a frame that names it
+			step++
+			prim := map[int]triggerList{}
+			for c := 0; c < n; c++ {
+				prim[c] = triggerList{channelIndex: c, frames: []FrameIndex{FrameIndex(1000*step + c)}}
+			}
+			sec, _ := ls.broker.Distribute(prim)
+			actual := [][]int{}
+			for r := 0; r < n; r++ {
+				for _, f := range sec[r] {
+					actual = append(actual, []int{int(f) - 1000*step, r})
+				}
+			}
+			sort.Slice(actual, func(i, j int) bool {
+				if actual[i][0] != actual[j][0] {
+					return actual[i][0] < actual[j][0]
+				}
+				return actual[i][1] < actual[j][1]
+			})
 			e := ""
 			if err != nil {
 				e = err.Error()
 			}
-			vEmit(vmap{"ev": "GReq", "scen": 100000 + scen, "op": op, "pairs": pairs, "ok": err == nil, "err": e, "nreports": 0, "reported": actual, "actual": actual})
+			vEmit(vmap{"ev": "GReq", "scen": 100000 + scen, "op": op, "pairs": pairs, "ok": err == nil, "err": e, "nreports": 0, "reported": reported, "actual": actual})
 		}
 	}
 }
